@@ -50,14 +50,29 @@ func panicSite(stack string) string {
 	return "unknown"
 }
 
-var opStart atomic.Int64 // unix nanos of the running real-code call, 0 = idle
+var opStart atomic.Int64 // monoNow() at the start of the running real-code call, 0 = idle
 var opName atomic.Value
+
+// monoNow: nanoseconds since process start on the MONOTONIC clock (never 0). The watchdog used wall-clock
+// nanoseconds before: a step of the system clock (seen on the shared VM) made every shard that happened to be
+// inside a call report a 60 s "hang" on an innocent op (false c06-crash in a thorough run, 6 of 16 shards at once).
+var procStart = time.Now()
+
+func monoNow() int64 { return int64(time.Since(procStart)) + 1 }
 
 func startWatchdog(limit time.Duration) {
 	go func() {
+		var cur int64
+		ticks := 0
 		for {
 			time.Sleep(500 * time.Millisecond)
-			if s := opStart.Load(); s != 0 && time.Since(time.Unix(0, s)) > limit {
+			s := opStart.Load()
+			if s == 0 || s != cur {
+				cur, ticks = s, 0
+				continue
+			}
+			ticks++ // the watchdog itself has seen this call running for ticks x 0.5 s (a frozen process sees nothing)
+			if monoNow()-s > int64(limit) && time.Duration(ticks)*500*time.Millisecond > limit/2 {
 				fmt.Fprintf(os.Stderr, "WATCHDOG: call did not return within %v (hang): %.300v\n", limit, opName.Load())
 				os.Exit(3)
 			}
@@ -67,7 +82,7 @@ func startWatchdog(limit time.Duration) {
 
 func call(op string, f func() error) (res callResult) {
 	opName.Store(op)
-	opStart.Store(time.Now().UnixNano())
+	opStart.Store(monoNow())
 	t0 := time.Now()
 	defer func() {
 		res.dur = time.Since(t0)
